@@ -271,9 +271,15 @@ void PCA(matrix *mx, int scaling, size_t npc, PCAMODEL* model, ssignal *s)
         }
       }
 
-      /* The residual matrix is null: more components were requested than the rank of the data.
-       * The remaining components do not exist; they are left to zero with zero eigenvalue. */
-      if(DVectorDVectorDotProd(t, t) == 0.f)
+      /* The residual matrix is null (or only rounding noise is left): more components were requested
+       * than the rank of the data. The remaining components do not exist; they are left to zero
+       * with zero eigenvalue. */
+      mod_t = 0.f;
+      for(i = 0; i < E->row; i++){
+        for(j = 0; j < E->col; j++)
+          mod_t += square(E->data[i][j]);
+      }
+      if(DVectorDVectorDotProd(t, t) == 0.f || mod_t <= 1e-24*ss)
         break;
 
       /* End Step 1 */
